@@ -562,19 +562,29 @@ def run(ctx, res):
     from . import c13eval
     evaluated = c13eval.report(ctx, res)
     sections = c13eval.SECTIONS
-    if evaluated:
-        # the statement-form rules below read the same facts off the loop's
-        # shape; they stay as the fallback for code the evaluation cannot
-        # follow and are not run on top of a decided evaluation (a refactored
-        # do_build would only make them answer "cannot follow")
-        pass
-    else:
+    # the statement-form rules read the same facts off the loop's shape and
+    # see what an evaluation of single calls cannot (a cache around the cart
+    # loader, a source that is neither the named file nor OUT); where they
+    # cannot follow a rewritten do_build the evaluated verdict stands and
+    # their "cannot follow" is kept as information only
+    mark = len(res.instances)
+    try:
         r = rule_sections(ctx, res)
-        if r is None:
-            return
-        loop, sections = r
-        rule_select(ctx, res, loop, sections)
-        rule_fail(ctx, res, loop)
+        if r is not None:
+            loop, sections = r
+            rule_select(ctx, res, loop, sections)
+            rule_fail(ctx, res, loop)
+    except AnalysisError as e:
+        if not evaluated:
+            raise
+        res.info('R-C13-select', 'pico8.build.build:do_build',
+                 'statement-form rules', 'not followed: ' + str(e)[:120])
+    if evaluated:
+        for i in res.instances[mark:]:
+            if i.verdict in ('UNDECIDED', 'VANISHED'):
+                i.verdict = 'INFO'
+                i.detail = 'statement form not recognised (the evaluated ' \
+                    'rule decides): ' + (i.detail or '')
     secs = set(sections) | {'empty_' + s for s in sections} | {
         'filename', 'lua_path'}
     cli.rule_wiring(ctx, res, 'build', check_writer=False, only_options=secs)
